@@ -55,9 +55,17 @@ class Project:
     def path(self, name):
         return os.path.join(self.root, self.pkg, name + '.py')
 
-    def edit(self, name, src):
+    def edit(self, name, src, step=None):
+        """write a module; with `step` the file's mtime is set explicitly: the previous one of this file + step seconds
+        (first write: a fixed instant with a fractional part), so that edits within one integer second are exercised"""
         with open(self.path(name), 'w') as f:
             f.write(src)
+        if step is not None:
+            mt = getattr(self, 'mtimes', None)
+            if mt is None:
+                mt = self.mtimes = {}
+            mt[name] = mt[name] + step if name in mt else 1700000000.25
+            os.utime(self.path(name), (mt[name], mt[name]))
 
     def run(self, force=False, fresh_process=False, env=None, targets=None):
         """returns ('ok', '') or (exception class name, text)"""
